@@ -92,6 +92,12 @@ func (s *sess) apply(l int) bool {
 		}
 		return n
 	}
+	if l >= settingsLetterBase {
+		id, val := settingsLetter(l)
+		c.Send(h2wire.Settings(h2wire.Setting{ID: id, Val: val}))
+		s.ref.OnSettings([]h2fpref.Setting{{ID: id, Val: val}})
+		return true
+	}
 	switch l {
 	case 0:
 		c.Send(h2wire.Settings(h2wire.Setting{ID: 3, Val: 100}))
@@ -299,9 +305,92 @@ func uniq(a []string) []string {
 func names(h []int) []string {
 	var s []string
 	for _, l := range h {
+		if l >= settingsLetterBase {
+			id, val := settingsLetter(l)
+			s = append(s, fmt.Sprintf("SETTINGS{%d:%d}", id, val))
+			continue
+		}
 		s = append(s, letterNames[l])
 	}
 	return s
+}
+
+// ---- settings sweep: every settings identifier (those RFC 7540 defines, those later RFCs define - 8 of RFC 8441, 9 of
+// RFC 9218 - and unassigned ones) x boundary values, sent mid-connection in front of PRIORITY frames, a WINDOW_UPDATE and
+// a request with priority; then the same identifier with value 0 and PRIORITY frames and a request again. A setting
+// is a (id, value) pair to be listed, whatever it means to the server; the frames after it are recorded as ever.
+const settingsLetterBase = 1000
+
+var sweepIDs = []uint16{0, 1, 2, 3, 4, 5, 6, 7, 8, 9, 10, 11, 16, 0x99, 0xffff}
+var sweepVals = []uint32{0, 1, 2, 100, 16384, 65535, 1<<31 - 1, 1<<32 - 1}
+
+func settingsLetter(l int) (uint16, uint32) {
+	l -= settingsLetterBase
+	return sweepIDs[l/len(sweepVals)], sweepVals[l%len(sweepVals)]
+}
+
+func legalSetting(id uint16, val uint32) bool {
+	switch id {
+	case 2, 8:
+		return val <= 1
+	case 4:
+		return val <= 1<<31-1
+	case 5:
+		return val >= 16384 && val <= 1<<24-1
+	}
+	return true
+}
+
+func seamSettings(t *testing.T, rep *ev.Report, shard, of int) {
+	k := 0
+	for i, id := range sweepIDs {
+		for j, val := range sweepVals {
+			if !legalSetting(id, val) {
+				continue
+			}
+			l := settingsLetterBase + i*len(sweepVals) + j
+			zero := settingsLetterBase + i*len(sweepVals) // the same identifier, value 0 (or the smallest legal value)
+			for !legalSetting(settingsLetter(zero)) {
+				zero++
+			}
+			for _, hist := range [][]int{{l, 5, 6, 3, 8, zero, 5, 7}, {5, l, 6, 8, 3, 7}, {l, zero, l, 5, 8}} {
+				k++
+				if k%of != shard {
+					continue
+				}
+				app, obs, viol := runHistory(t, hist, rep)
+				rep.Add("settings_sweep_histories", 1)
+				if !app {
+					rep.HarnessError("settings sweep history %v not applicable", names(hist))
+					continue
+				}
+				rep.Add("states", 1)
+				rep.Add("transitions", int64(len(hist)))
+				rep.Add("traces_validated_against_impl", 1)
+				rep.Add("evaluations", 1)
+				rep.Note("distinct_nontrivial", mc.Hash64(obs))
+				for _, v := range viol {
+					if strings.HasPrefix(v, "HARNESS") {
+						rep.HarnessError("history %v: %s", names(hist), v)
+						continue
+					}
+					n := 0
+					for x := 0; x < 5; x++ {
+						if _, _, v2 := runHistory(t, hist, rep); len(v2) > 0 {
+							n++
+						}
+					}
+					if n != 5 {
+						rep.HarnessError("history %v: violation did not reproduce 5/5: %s", names(hist), v)
+						continue
+					}
+					rep.Violate(map[string]any{"kind": "capture-wrong", "seam": "B-settings-sweep", "setting_id": id},
+						map[string]any{"history": names(hist), "letters": hist}, "history %v: %s", names(hist), v)
+					break
+				}
+			}
+		}
+	}
 }
 
 func seamB(t *testing.T, rep *ev.Report, shard, of int) {
@@ -673,6 +762,7 @@ func TestCheck(t *testing.T) {
 		seamC(rep)
 	}
 	seamB(t, rep, shard, of)
+	seamSettings(t, rep, shard, of)
 	if ev.Thorough() {
 		seamBDeep(t, rep, shard, of, 3, 9)
 	} else {
